@@ -112,6 +112,7 @@ func GenSpec(r *vh.Rng) Spec {
 	// three quarters of the clusters are staged: job 1 is a running low-priority victim above its gang
 	// minimum, job 2 a starving high-priority preemptor (same queue for preempt, another for reclaim)
 	staged := r.Chance(3, 4)
+	afterAllocate := r.Chance(1, 3)
 	type used struct{ cpu, mem, pods, gpu int64 }
 	room := map[int64]*used{}
 	for i := 1; i <= nn; i++ {
@@ -187,6 +188,10 @@ func GenSpec(r *vh.Rng) Spec {
 			wantRun := (mode == 0 && !r.Chance(1, 6)) || (mode == 2 && r.Chance(1, 2)) || (mode == 1 && r.Chance(1, 8))
 			if wantRun {
 				ts.Status = vh.Pick(r, []int64{sched.SRunning, sched.SRunning, sched.SRunning, sched.SRunning, sched.SBound, sched.SReleasing, sched.SSucceeded})
+				// a third of the clusters look like a session in which allocate / backfill ran before
+				if afterAllocate && r.Chance(1, 3) {
+					ts.Status = vh.Pick(r, []int64{sched.SAllocated, sched.SAllocated, sched.SBinding, sched.SBinding, sched.SPipelined})
+				}
 				nid := int64(r.Range(1, nn))
 				f := room[nid]
 				ts.Node = nid
@@ -195,7 +200,7 @@ func GenSpec(r *vh.Rng) Spec {
 					f.mem += ts.Mem
 					f.pods++
 					f.gpu += ts.GPU
-					if ts.Status != sched.SReleasing {
+					if ts.Status != sched.SReleasing && ts.Status != sched.SPipelined {
 						running++
 					}
 				}
